@@ -150,6 +150,12 @@ def programs(tier):
     for dest in ('bytesio', 'path', 'newpath'):
         for cb in (None, 'count', 'raise'):
             progs.append({'cfg': scen.ops_cfg('bytes', 4096), 'steps': [con, ('pull', '/f', dest, {'cb': cb} if cb else {})]})
+    for md in (65536, 100000, 256 * 1024, 1024 * 1024):
+        progs.append({'cfg': scen.ops_cfg('one', md), 'steps': [con, ('push', ('bytes', scen.push_data(200000)), '/big', {'mtime': 3}), scen.op_tuple('stat')]})
+    ucfg = scen.ops_cfg('two', 4096)
+    ucfg['fs'] = {'files': {'/sd/caf\u00e9 \u5199\u771f.txt'.encode(): {'data': b'unicode file', 'mode': 0o100644, 'mtime': 9}}, 'dirs': {'/sd/\u00fcber'.encode(): scen.DIR_D}}
+    progs.append({'cfg': ucfg, 'steps': [con, ('stat', '/sd/caf\u00e9 \u5199\u771f.txt'), ('list', '/sd/\u00fcber'), ('pull', '/sd/caf\u00e9 \u5199\u771f.txt', 'bytesio'),
+                                         ('push', ('bytes', b'abc'), '/sd/\u00e9\u00e8/x')]})
     for start in (0, 2**32 - 3):
         progs.append({'cfg': scen.ops_cfg('two', 4096, family='extreme'), 'local_id': start, 'steps': [con] + [scen.op_tuple(o) for o in scen.OPS8]})
     fam['sources-callbacks-ids'] = (progs, {})
